@@ -99,10 +99,13 @@ impl std::ops::DerefMut for Indices {
 impl std::fmt::Display for Indices {
     fn fmt(&self, f: &mut std::fmt::Formatter<'_>) -> std::fmt::Result {
         write!(f, "[")?;
-        for i in 0..self.len() - 1 {
-            write!(f, "{}, ", self[i])?;
+        for i in 0..self.len() {
+            if i > 0 {
+                write!(f, ", ")?;
+            }
+            write!(f, "{}", self[i])?;
         }
-        write!(f, "{}]", self[self.len() - 1])
+        write!(f, "]")
     }
 }
 
@@ -143,10 +146,13 @@ impl std::ops::DerefMut for Paths {
 impl std::fmt::Display for Paths {
     fn fmt(&self, f: &mut std::fmt::Formatter<'_>) -> std::fmt::Result {
         write!(f, "[")?;
-        for i in 0..self.len() - 1 {
-            write!(f, "{}, ", self[i])?;
+        for i in 0..self.len() {
+            if i > 0 {
+                write!(f, ", ")?;
+            }
+            write!(f, "{}", self[i])?;
         }
-        write!(f, "{}]", self[self.len() - 1])
+        write!(f, "]")
     }
 }
 
